@@ -153,8 +153,21 @@ func (p *provider) Stop(_ context.Context) error {
 func (p *provider) watchChanges(ctx context.Context, rsf RuleSetFetcher) error {
 	p.l.Debug().Msg("Retrieving rule set")
 
+	var (
+		unusable *unusableBlobsError
+		keep     []string
+	)
+
 	ruleSets, err := rsf.FetchRuleSets(ctx)
-	if err != nil {
+	if errors.As(err, &unusable) {
+		// the rule sets loaded from these blobs in the past are preserved. All other are processed as usual
+		p.l.Warn().
+			Err(err).
+			Str("_endpoint", rsf.ID()).
+			Msgf("Failed to fetch rule sets from %v", unusable.sources)
+
+		keep = unusable.sources
+	} else if err != nil {
 		if errors.Is(err, context.Canceled) {
 			p.l.Debug().Msg("Watcher closed")
 
@@ -188,20 +201,24 @@ func (p *provider) watchChanges(ctx context.Context, rsf RuleSetFetcher) error {
 		return nil
 	}
 
-	if err = p.ruleSetsUpdated(ruleSets, state, rsf.ID()); err != nil {
+	if err = p.ruleSetsUpdated(ruleSets, state, rsf.ID(), keep...); err != nil {
 		p.l.Warn().Err(err).Str("_endpoint", rsf.ID()).Msg("Failed to apply rule set changes")
 	}
 
 	return nil
 }
 
-func (p *provider) ruleSetsUpdated(ruleSets []*rule_config.RuleSet, state BucketState, buketID string) error {
+func (p *provider) ruleSetsUpdated(
+	ruleSets []*rule_config.RuleSet, state BucketState, buketID string, keep ...string,
+) error {
+	var errs []error
+
 	// check which were present in the past and are not present now
 	// and which are new
 	currentIDs := toRuleSetIDs(ruleSets)
 	oldIDs := maps.Keys(state)
 
-	removedIDs := slicex.Subtract(oldIDs, currentIDs)
+	removedIDs := slicex.Subtract(slicex.Subtract(oldIDs, currentIDs), keep)
 	newIDs := slicex.Subtract(currentIDs, oldIDs)
 
 	for _, ID := range removedIDs {
@@ -213,8 +230,11 @@ func (p *provider) ruleSetsUpdated(ruleSets []*rule_config.RuleSet, state Bucket
 			},
 		}
 
+		// a failure for one rule set must not prevent the processing of the other ones
 		if err := p.p.OnDeleted(conf); err != nil {
-			return err
+			errs = append(errs, err)
+
+			continue
 		}
 
 		delete(state, ID)
@@ -243,13 +263,15 @@ func (p *provider) ruleSetsUpdated(ruleSets []*rule_config.RuleSet, state Bucket
 		}
 
 		if err != nil {
-			return err
+			errs = append(errs, err)
+
+			continue
 		}
 
 		state[ruleSet.Source] = ruleSet.Hash
 	}
 
-	return nil
+	return errors.Join(errs...)
 }
 
 func (p *provider) getBucketState(key string) BucketState {
